@@ -23,48 +23,87 @@ func parseRepo(repo, file string) (*ast.File, *token.FileSet, error) {
 }
 
 // condText renders an expression back to compact Go text (for shape facts).
-func nodeTextSrc(fset *token.FileSet, src []byte, n ast.Node) string {
+func orcNodeText(fset *token.FileSet, src []byte, n ast.Node) string {
 	return strings.Join(strings.Fields(string(src[fset.Position(n.Pos()).Offset:fset.Position(n.End()).Offset])), " ")
 }
 
 func oracleFacts(repo string, emit func(name, leanDef string, err error)) {
-	// 1. the oracle branch of SigVerificationDecorator: is the result of VerifySignature used?
+	// 1. the oracle branch of SigVerificationDecorator: the boolean returned by VerifySignature must
+	// GUARD A RETURN OF AN ERROR: an `if` whose condition is `!X.VerifySignature(..)` (optionally
+	// `!simulate && …`) and whose body returns a non-nil error. Anything else (result dropped,
+	// assigned and forgotten, logged only, extra disjuncts/conjuncts) counts as "not used".
 	func() {
-		f, _, err := parseRepo(repo, "app/ante/cosmos/sigverify.go")
+		f, fset, err := parseRepo(repo, "app/ante/cosmos/sigverify.go")
 		if err != nil {
 			emit("oracleSigResultUsed", "", err)
 			return
 		}
+		src, _ := readFile(repo + "/app/ante/cosmos/sigverify.go")
 		fd := findFunc(f, "SigVerificationDecorator.AnteHandle")
 		if fd == nil {
 			emit("oracleSigResultUsed", "", fmt.Errorf("SigVerificationDecorator.AnteHandle not found"))
 			return
 		}
-		found, discarded := false, false
-		// look only inside the `if utils.IsOracleCreatePriceTx(tx) { … }` block
+		isNegVerify := func(e ast.Expr) bool {
+			for {
+				if p, ok := e.(*ast.ParenExpr); ok {
+					e = p.X
+					continue
+				}
+				break
+			}
+			u, ok := e.(*ast.UnaryExpr)
+			if !ok || u.Op != token.NOT {
+				return false
+			}
+			c, ok := u.X.(*ast.CallExpr)
+			return ok && strings.HasSuffix(exprText(c.Fun), ".VerifySignature")
+		}
+		isNotSimulate := func(e ast.Expr) bool {
+			u, ok := e.(*ast.UnaryExpr)
+			return ok && u.Op == token.NOT && exprText(u.X) == "simulate"
+		}
+		calls, guards := 0, 0
+		guardText := ""
 		ast.Inspect(fd.Body, func(n ast.Node) bool {
 			ifs, ok := n.(*ast.IfStmt)
 			if !ok || !strings.Contains(exprText(ifs.Cond), "IsOracleCreatePriceTx") {
 				return true
 			}
 			ast.Inspect(ifs.Body, func(m ast.Node) bool {
-				if es, ok := m.(*ast.ExprStmt); ok {
-					if c, ok := es.X.(*ast.CallExpr); ok && strings.HasSuffix(exprText(c.Fun), ".VerifySignature") {
-						found, discarded = true, true
-					}
+				if c, ok := m.(*ast.CallExpr); ok && strings.HasSuffix(exprText(c.Fun), ".VerifySignature") {
+					calls++
 				}
-				if c, ok := m.(*ast.CallExpr); ok && strings.HasSuffix(exprText(c.Fun), "VerifySignature") {
-					found = true
+				g, ok := m.(*ast.IfStmt)
+				if !ok || g.Init != nil {
+					return true
 				}
+				condOK := isNegVerify(g.Cond)
+				if be, ok := g.Cond.(*ast.BinaryExpr); ok && be.Op == token.LAND && isNotSimulate(be.X) && isNegVerify(be.Y) {
+					condOK = true
+				}
+				if !condOK || len(g.Body.List) == 0 {
+					return true
+				}
+				ret, ok := g.Body.List[0].(*ast.ReturnStmt)
+				if !ok || len(ret.Results) != 2 || exprText(ret.Results[1]) == "nil" {
+					return true
+				}
+				if id, ok := ret.Results[1].(*ast.Ident); ok && id.Name == "err" {
+					return true // returning a variable that may be nil is not a guard
+				}
+				guards++
+				guardText = orcNodeText(fset, src, g.Cond)
 				return true
 			})
 			return false
 		})
-		if !found {
+		if calls == 0 {
 			emit("oracleSigResultUsed", "", fmt.Errorf("no VerifySignature call in the oracle branch"))
 			return
 		}
-		emit("oracleSigResultUsed", fmt.Sprintf("/-- app/ante/cosmos/sigverify.go, oracle branch: the boolean returned by VerifySignature is used (false = computed and discarded) -/\ndef oracleSigResultUsed : Bool := %v", !discarded), nil)
+		used := guards >= 1 && guards == calls // every call sits in a guarding condition
+		emit("oracleSigResultUsed", fmt.Sprintf("/-- app/ante/cosmos/sigverify.go, oracle branch: every VerifySignature call is the negated condition of an `if` that returns an error (false = result dropped or not guarding a return) -/\ndef oracleSigResultUsed : Bool := %v\n\n/-- the guarding condition, as written -/\ndef oracleSigGuardCond : String := %q", used, guardText), nil)
 	}()
 	// 2. constants: TxSizeLimit, maxFutureOffset seconds, default MaxNonce/thresholds
 	func() {
@@ -124,7 +163,7 @@ func oracleFacts(repo string, emit func(name, leanDef string, err error)) {
 			return
 		}
 		src, _ := readFile(repo + "/" + file)
-		body := nodeTextSrc(fset, src, fd.Body)
+		body := orcNodeText(fset, src, fd.Body)
 		var got []string
 		for _, w := range wants {
 			if !strings.Contains(body, w) {
